@@ -73,8 +73,13 @@ type Net struct {
 	Dials  []*DialRec
 	Conns  []*ConnRec
 	BufCap int
-	dead   bool
-	all    []*TCPConn
+	// MaxOpen, if > 0, is the file-descriptor budget of the scanner process for sockets: a dial made
+	// while that many client connections are open fails with EMFILE (fault "fd-limit").
+	MaxOpen int
+	open    int
+	MaxSeen int // high-water mark of simultaneously open client connections
+	dead    bool
+	all     []*TCPConn
 }
 
 const key = "simnet"
@@ -184,6 +189,7 @@ type TCPConn struct {
 	rdl, wdl     time.Time
 	Linger       int
 	lingerSet    bool
+	onClose      func() // client side: gives the descriptor back
 }
 
 var _ net.Conn = (*TCPConn)(nil)
@@ -357,7 +363,12 @@ func (c *TCPConn) Close() error {
 	}
 	c.closed = true
 	close(c.closedCh)
+	oc := c.onClose
+	c.onClose = nil
 	c.mu.Unlock()
+	if oc != nil {
+		oc()
+	}
 	c.wr.mu.Lock()
 	if !c.wr.eof {
 		c.wr.eof = true
@@ -505,7 +516,31 @@ func (d *Dialer) DialContext(ctx context.Context, network, address string) (net.
 	if srv == nil {
 		srv = &Server{Mode: Refuse, ConnectTime: time.Millisecond}
 	}
+	n.mu.Lock()
+	if n.MaxOpen > 0 && n.open >= n.MaxOpen {
+		n.mu.Unlock()
+		simrt.Fault("fd-limit")
+		rec.EndT = r.Now()
+		e := &net.OpError{Op: "dial", Net: network, Addr: addr(address), Err: os.NewSyscallError("socket", syscall.EMFILE)}
+		rec.Err = e.Error()
+		return nil, e
+	}
+	n.open++ // the socket exists from the start of the connect
+	if n.open > n.MaxSeen {
+		n.MaxSeen = n.open
+	}
+	n.mu.Unlock()
+	released := false
+	release := func() {
+		n.mu.Lock()
+		n.open--
+		n.mu.Unlock()
+	}
 	fail := func(err error) (net.Conn, error) {
+		if release != nil && !released {
+			released = true
+			release()
+		}
 		rec.EndT = r.Now()
 		e := &net.OpError{Op: "dial", Net: network, Addr: addr(address), Err: err}
 		rec.Err = e.Error()
@@ -547,6 +582,7 @@ func (d *Dialer) DialContext(ctx context.Context, network, address string) (net.
 		return fail(os.NewSyscallError("connect", syscall.ECONNREFUSED))
 	}
 	c, s := pair(n.BufCap, "10.255.255.1:40000", address)
+	c.onClose = release
 	n.mu.Lock()
 	dead := n.dead
 	n.all = append(n.all, c, s)
